@@ -21,6 +21,7 @@ ASSUMPTIONS = ["the floating-point DCT/IDCT is exempt and not exercised; instruc
 
 def classify(op, R):
     p = op.split(" ")
+    if p[0] == "s5e": return "s5e:ss%s:k%s:m%s" % (p[1], p[5], p[6])
     if p[0] == "s5c": return "s5c:w%d:pf%s:ss%s:f%s:off%d" % (int(p[1]) % 32, p[3], p[4], p[6], int(p[7]) % 4)
     if p[0] == "s5d": return "s5d:ss%s:pf%s:f%s:sf%s" % (p[1], p[6], p[7], p[8])
     if p[0] == "s5y": return "s5y:ss%s:w%d" % (p[3], int(p[1]) % 16)
@@ -43,6 +44,12 @@ def gen_ops(rng, tier):
     for i in range(2000 if big else 300):
         ops.append("s5y %d %d %d %d %d %d" % (rng.choice([rng.randint(1, 70), 16, 31, 32, 33, 65]), rng.randint(1, 20), rng.choice([0, 1, 2, 4, 5, 6]), rng.randrange(1 << 30),
                                              rng.randrange(5), rng.choice([1, 2, 4, 8, 16, 32])))
+    # entropy coding alone: SIMD Huffman / progressive-prepare routines against the C ones on formula coefficients, every scan script
+    for i in range(2500 if big else 400):
+        ss = rng.choice([0, 1, 2, 3, 3, 4])
+        mode = rng.choice([0, 1, 2, 3, 3, 3, 3, 6])
+        ops.append("s5e %d %d %d %d %d %d %d %d" % (ss, rng.randint(1, 50), rng.randint(1, 30), rng.randrange(1 << 30), rng.choice([0, 0, 1, 2, 3, 4, 6, 7]), mode,
+                                                   rng.randrange(1, 1 << 30), rng.choice([0, 0, 0, 1, 3, 8])))
     # the quantiser: SIMD vs C on the same tables (C07 op; the executor itself compares jsimd_quantize with quantize())
     for d in list(range(1, 70)) + [8 * q for q in (1, 2, 3, 4, 5, 16, 255, 256, 1000, 8191)]:
         ws = [rng.randint(-32767, 32767) for _ in range(20)] + [k * d + e for k in range(0, 8) for e in (-1, 0, 1) if abs(k * d + e) < 32768]
